@@ -33,3 +33,9 @@ Proof.
   induction l as [|a t IH]; simpl; [reflexivity|]. intros H. apply Bool.andb_true_iff in H. destruct H as (Ha & Ht).
   rewrite Ha. f_equal. apply IH. assumption.
 Qed.
+
+Lemma filter_length_le {A} (f : A -> bool) (l : list A) : length (filter f l) <= length l.
+Proof. induction l as [|a t IH]; simpl; [lia|]. destruct (f a); simpl; lia. Qed.
+
+Lemma option_eq_dec (a b : option nat) : {a = b} + {a <> b}.
+Proof. decide equality. apply Nat.eq_dec. Qed.
